@@ -181,6 +181,11 @@ def case_batched(T, n, max_iters, variant=0, mode="scales"):
              dtype=False)
         if kb > 1:
             T.eq(f"batched[{b}]:T-offdiagonal", sub_b, _vec(T, [Te[i + 1, i] for i in range(kb - 1)], dt), dtype=False)
+        if mode == "blocks" and variant < 0 and kb < k:
+            # the exhausted batch member is zero padded while the other one continues (identity basis: the breakdown is exact in floats too)
+            T.eq(f"batched[{b}]:Q-padding-is-zero", Qarr[b][:, kb:], K.zeros_like_mode(T, (n, k - kb), dt), dtype=False)
+            T.eq(f"batched[{b}]:T-diagonal-padding-is-zero", Tb.beta[b][kb:k, 0], K.zeros_like_mode(T, (k - kb, ), dt), dtype=False)
+            T.eq(f"batched[{b}]:T-offdiagonal-padding-is-zero", Tb.alpha[b][kb - 1:k - 1, 0], K.zeros_like_mode(T, (k - kb, ), dt), dtype=False)
 
 
 def _stack_cols(T, cols, dt):
@@ -238,6 +243,7 @@ def cases(tier, seed):
         for m in (2, n, n + 1):
             out.append((f"batched-scales:n{n}m{m}", case_batched, dict(n=n, max_iters=m, mode="scales")))
         out.append((f"batched-blocks:n{n}", case_batched, dict(n=n, max_iters=n, mode="blocks")))
+        out.append((f"batched-blocks-exact:n{n}", case_batched, dict(n=n, max_iters=n, mode="blocks", variant=-1)))
     return out
 
 
